@@ -131,6 +131,10 @@ pub struct Plan {
     /// Make every op with this (verb, archive-relative path) fail with this kind: a fault chosen by
     /// WHAT it hits, not by its position in the run (positions may depend on unordered collections).
     pub fail_paths: Vec<(String, String, String)>,
+    /// The op with this index takes this many milliseconds longer (slow storage); nothing else changes.
+    pub stall: Option<(usize, u64)>,
+    /// ... or the first write of a data block does.
+    pub stall_block_ms: Option<u64>,
 }
 
 struct ActorState {
@@ -363,6 +367,18 @@ impl Interceptor for ActorIcpt {
             if !frozen {
                 s.park(&self.name, json!({"verb": verb, "path": op.path, "key": decode::key_of(op.path)}));
             }
+        }
+        let stall = {
+            let mut g = self.st.lock().unwrap();
+            let by_index = g.plan.stall.filter(|(k, _)| *k == g.idx && !g.frozen).map(|x| x.1);
+            if by_index.is_none() && op.verb == Verb::Write && op.path.starts_with("d/") && !g.frozen {
+                g.plan.stall_block_ms.take()
+            } else {
+                by_index
+            }
+        };
+        if let Some(ms) = stall {
+            std::thread::sleep(std::time::Duration::from_millis(ms));
         }
         let mut g = self.st.lock().unwrap();
         let k = g.idx;
